@@ -341,8 +341,10 @@ def applyEntry (s : Store) : Entry → Store
   | .embDel id => { s with slab := aerase s.slab id }
   | .entRemove k => { s with vocab := idxRemove s.vocab k }
 
-def recover (wal : List Entry) : Store :=
-  wal.foldl applyEntry { wal := wal, walOn := true }
+/-- the slabs rebuilt by replaying the log over an empty store -/
+def replay (wal : List Entry) : Store := wal.foldl applyEntry { walOn := true }
+
+def recover (wal : List Entry) : Store := { replay wal with wal := wal }
 
 /-! ### the sequential specification: one map key ↦ value -/
 
@@ -422,9 +424,46 @@ def Op.simpleDurablePut : Op → Bool
   | .putD k v => decide (k.cls ≠ .cache ∧ k.cls ≠ .emb ∧ v.vec = .none)
   | _ => false
 
+/-- put / get / delete / exists / scan (no `put_durable` / `delete_durable`) -/
+def Op.nonDurable : Op → Bool
+  | .putD .. | .delD .. => false
+  | _ => true
+
 def Op.key? : Op → Option Key
   | .put k _ | .get k | .delete k | .exists_ k | .putD k _ | .delD k => some k
   | .scan _ => none
+
+end Neumann.KV
+
+namespace Neumann.KV
+
+/-! ### the proposed repair (proposed/C11-durable-apply-under-log-mutex.diff): the log mutex is held
+    from the log step to the end of the in-memory apply -/
+
+def Op.takesLock : Op → Bool
+  | .putD k _ | .delD k => decide (k.cls ≠ .cache)
+  | _ => false
+
+/-- between its log step and the end of its durable operation -/
+def Thread.inCS (th : Thread) : Bool :=
+  match th.ops with
+  | op :: _ => op.takesLock && decide (th.pc ≠ .start)
+  | [] => false
+
+/-- as `step`, but a thread about to enter a durable write while another thread holds the log
+    mutex does not move (it blocks) -/
+def stepLocked (sys : Sys) (t : Nat) : Sys :=
+  match sys.threads[t]? with
+  | none => sys
+  | some th =>
+    match th.ops with
+    | [] => sys
+    | op :: _ =>
+      if sys.store.walOn && op.takesLock && decide (th.pc = .start) && sys.threads.any Thread.inCS
+      then sys else step sys t
+
+def runLocked (walOn : Bool) (progs : List ThreadProgram) (sched : List Nat) : Sys :=
+  sched.foldl stepLocked (initSys walOn progs)
 
 end Neumann.KV
 
